@@ -266,6 +266,19 @@ class ForLoop(Mapping[str, object]):
     def __iter__(self) -> Iterator[Any]:
         return self
 
+    # `__iter__` drives the loop instead of iterating keys, so the Mapping mixin
+    # methods built on it must not be used when a forloop object is treated as
+    # data (`for x in forloop`, `forloop == y`).
+
+    def keys(self) -> Any:  # noqa: D102
+        return sorted(self._keys)
+
+    def values(self) -> Any:  # noqa: D102
+        return [getattr(self, key) for key in sorted(self._keys)]
+
+    def items(self) -> Any:  # noqa: D102
+        return [(key, getattr(self, key)) for key in sorted(self._keys)]
+
     def __str__(self) -> str:
         return "ForLoop"
 
